@@ -44,20 +44,20 @@ fn flag(args: &[String], name: &str) -> bool {
 
 fn default_runs(prop: &str, tier: &str) -> u64 {
     let quick = match prop {
-        "C01" | "C03" => 100_000,
-        "C02" => 60_000,
-        "C04" => 100_000,
-        "C05" => 80_000,
+        "C01" | "C03" => 60_000,
+        "C02" => 40_000,
+        "C04" => 60_000,
+        "C05" => 50_000,
         "C06" => 6_000,
-        "C07" => 40_000,
-        "C08" => 100_000,
-        "C09" => 50_000,
-        "C10" => 100_000,
-        "C11" => 50_000,
-        "C12" => 100_000,
-        "C13" => 80_000,
-        "C14" => 80_000,
-        "C16" => 60_000,
+        "C07" => 25_000,
+        "C08" => 60_000,
+        "C09" => 30_000,
+        "C10" => 60_000,
+        "C11" => 30_000,
+        "C12" => 60_000,
+        "C13" => 50_000,
+        "C14" => 50_000,
+        "C16" => 36_000,
         "C17" => 20_000,
         _ => 4_000,
     };
@@ -66,7 +66,7 @@ fn default_runs(prop: &str, tier: &str) -> u64 {
             "C06" => quick * 20,
             "C07" => quick * 40,
             "C17" => quick * 10,
-            _ => quick * 20,
+            _ => quick * 30,
         }
     } else {
         quick
